@@ -1501,3 +1501,185 @@ func sortSites(s []*CallSite) {
 		}
 	}
 }
+
+// ---- new explicit panics ---------------------------------------------------------------------------------------------------
+
+// newPanicVerdict classifies an explicit panic that no reviewed exception covers. It is a violation when the analysis
+// can see that it is reached by something a statement controls: it is unconditional, or it sits on the failure edge of
+// an operation (err != nil, a failed comma-ok). Behind any other condition — a comparison of internal quantities, a
+// nil test of an internal pointer, an arm of a switch — its reachability is an invariant question this analysis does
+// not decide: a defensive assertion of a state that cannot occur and a reachable crash look alike.
+func newPanicVerdict(f *Func, call *ast.CallExpr) (violation bool, why string) {
+	info := f.Pkg.TypesInfo
+	// nearest enclosing conditional construct
+	var stack []ast.Node
+	var chain []ast.Node
+	ast.Inspect(f.Decl.Body, func(x ast.Node) bool {
+		if x == nil {
+			stack = stack[:len(stack)-1]
+			return true
+		}
+		stack = append(stack, x)
+		if x == ast.Node(call) {
+			chain = append([]ast.Node{}, stack...)
+		}
+		return true
+	})
+	for i := len(chain) - 2; i >= 0; i-- {
+		switch y := chain[i].(type) {
+		case *ast.FuncLit:
+			return false, "inside a function literal: when it runs is not decided"
+		case *ast.IfStmt:
+			// in the else branch the condition is negated; treat both alike: what matters is what it talks about
+			failure := false
+			ast.Inspect(y.Cond, func(z ast.Node) bool {
+				switch e := z.(type) {
+				case *ast.BinaryExpr:
+					if e.Op == token.NEQ || e.Op == token.EQL {
+						for _, side := range []ast.Expr{e.X, e.Y} {
+							if t := info.TypeOf(side); t != nil && types.TypeString(t, nil) == "error" {
+								failure = true
+							}
+						}
+					}
+				case *ast.UnaryExpr:
+					if e.Op == token.NOT {
+						if id, ok := ast.Unparen(e.X).(*ast.Ident); ok {
+							if rhs, _, ok := f.definedBy(f.Decl.Body, f.ObjOf(id)); ok {
+								switch r := ast.Unparen(rhs).(type) {
+								case *ast.TypeAssertExpr, *ast.IndexExpr:
+									_ = r
+									failure = true
+								}
+							}
+						}
+					}
+				}
+				return true
+			})
+			if failure {
+				return true, "it sits on the failure edge of an operation (" + exprKey(y.Cond) + "): whenever that operation fails the engine crashes instead of returning an error"
+			}
+			return false, "it is guarded by `" + exprKey(y.Cond) + "`, a condition over internal state whose possibility this analysis does not decide (an assertion of an impossible state and a reachable crash look alike)"
+		case *ast.CaseClause:
+			return false, "it is in an arm of a switch whose totality this analysis does not decide here"
+		case *ast.CommClause:
+			return false, "it is in an arm of a select"
+		}
+	}
+	// a helper that does nothing but panic is judged where it is called
+	if _, pinned := pinnedFuncs[f.Name]; !pinned && len(f.Decl.Body.List) <= 2 {
+		if in := f.w.CG().In[f]; len(in) > 0 {
+			for _, cs := range in {
+				if cs.Caller == f {
+					continue
+				}
+				if bad, why := newPanicVerdict(cs.Caller, cs.Call); bad {
+					return true, "its helper " + f.Name + " is called at " + f.w.Pos(cs.Call.Pos()) + " where " + why
+				}
+			}
+			return false, "it is the body of the helper " + f.Name + ", every call of which is behind a condition over internal state"
+		}
+	}
+	return true, "it is unconditional: every execution of " + f.Name + " that reaches this point crashes"
+}
+
+// ---- dispatch written as a table --------------------------------------------------------------------------------------------
+
+// tableLiteral resolves a package-level `var M = map[K]V{ C1: v1, … }` (keys named constants) that is never assigned
+// again, given an expression that names M. It returns constant name -> value expression.
+func tableLiteral(f *Func, e ast.Expr) map[string]ast.Expr {
+	id, ok := ast.Unparen(e).(*ast.Ident)
+	if !ok {
+		return nil
+	}
+	v, ok := f.ObjOf(id).(*types.Var)
+	if !ok || v.Pkg() == nil || v.Parent() != v.Pkg().Scope() {
+		return nil
+	}
+	var lit *ast.CompositeLit
+	for _, file := range f.Pkg.Syntax {
+		ast.Inspect(file, func(n ast.Node) bool {
+			switch y := n.(type) {
+			case *ast.FuncDecl:
+				return false
+			case *ast.ValueSpec:
+				for i, nm := range y.Names {
+					if f.Pkg.TypesInfo.Defs[nm] == types.Object(v) && i < len(y.Values) {
+						if cl, ok := ast.Unparen(y.Values[i]).(*ast.CompositeLit); ok {
+							lit = cl
+						}
+					}
+				}
+			}
+			return true
+		})
+	}
+	if lit == nil {
+		return nil
+	}
+	if _, isMap := f.Pkg.TypesInfo.TypeOf(lit).Underlying().(*types.Map); !isMap {
+		return nil
+	}
+	// never stored into afterwards
+	stored := false
+	for _, fn := range f.w.Funcs {
+		if fn.Pkg != f.Pkg || fn.Decl.Body == nil {
+			continue
+		}
+		ast.Inspect(fn.Decl.Body, func(n ast.Node) bool {
+			if as, ok := n.(*ast.AssignStmt); ok {
+				for _, l := range as.Lhs {
+					root := ast.Unparen(l)
+					if ix, ok := root.(*ast.IndexExpr); ok {
+						root = ast.Unparen(ix.X)
+					}
+					if rid, ok := root.(*ast.Ident); ok && fn.ObjOf(rid) == types.Object(v) {
+						stored = true
+					}
+				}
+			}
+			return true
+		})
+	}
+	if stored {
+		return nil
+	}
+	out := map[string]ast.Expr{}
+	for _, el := range lit.Elts {
+		kv, ok := el.(*ast.KeyValueExpr)
+		if !ok {
+			return nil
+		}
+		cst := f.namedConst(kv.Key)
+		if cst == nil {
+			return nil
+		}
+		out[cst.Name()] = kv.Value
+	}
+	return out
+}
+
+// methodNamed: the method a dispatch-table value stands for — the method expression (*T).M, the method value x.M, or a
+// function literal whose body is `return p.M(…)`.
+func methodNamed(f *Func, e ast.Expr) string {
+	switch y := ast.Unparen(e).(type) {
+	case *ast.SelectorExpr:
+		if fn, ok := f.Pkg.TypesInfo.Uses[y.Sel].(*types.Func); ok {
+			return fn.Name()
+		}
+	case *ast.FuncLit:
+		if len(y.Body.List) == 1 {
+			if r, ok := y.Body.List[0].(*ast.ReturnStmt); ok && len(r.Results) == 1 {
+				if call, ok := ast.Unparen(r.Results[0]).(*ast.CallExpr); ok {
+					if sel, ok := ast.Unparen(call.Fun).(*ast.SelectorExpr); ok {
+						if fn, ok := f.Pkg.TypesInfo.Uses[sel.Sel].(*types.Func); ok {
+							return fn.Name()
+						}
+					}
+				}
+			}
+		}
+	}
+	return ""
+}
